@@ -1221,7 +1221,9 @@ class AttributeVariable(FormatDirective):
     def print(self, printer: Printer, state: PrintingState, op: IRDLOperation) -> None:
         attr = self.get(op)
 
-        if attr is None or attr == self.default_value:
+        # A default value may only be elided where the parser treats the variable as
+        # optional; otherwise the printed form would not parse back.
+        if attr is None or (self.is_optional and attr == self.default_value):
             return
 
         state.print_whitespace(printer)
